@@ -3,11 +3,16 @@ module verif/engine
 go 1.23.0
 
 require (
+	golang.org/x/text v0.23.0
 	golang.org/x/tools v0.29.0
 	gopkg.in/yaml.v3 v3.0.1
 )
 
 require (
 	golang.org/x/mod v0.22.0 // indirect
-	golang.org/x/sync v0.10.0 // indirect
+	golang.org/x/sync v0.12.0 // indirect
 )
+
+// x/text v0.23.0 lists x/sync v0.12.0 for its own tooling; that version is not in the offline module cache and
+// nothing linked here uses it
+replace golang.org/x/sync v0.12.0 => golang.org/x/sync v0.10.0
